@@ -25,11 +25,11 @@ Local Open Scope list_scope.
 Inductive rtree :=
 | RtVal (j : json)                                   (* a completed, non-null leaf value *)
 | RtNullV                                            (* null, without error *)
-| RtFail (c : eclass)                                (* a field error raised at this position *)
+| RtFail (c : exclass)                                (* a field error raised at this position *)
 | RtSkipped                                          (* omitted (partial execution) *)
 | RtObj (fs : list (str * ty * rtree))               (* response key, type of the field, subtree *)
 | RtList (inner : ty) (items : list rtree)
-| RtItemFail (inner : ty) (items : list rtree) (c : eclass)    (* the iteration failed after `items` *)
+| RtItemFail (inner : ty) (items : list rtree) (c : exclass)    (* the iteration failed after `items` *)
 | RtFuel.                                            (* the evaluation ran out of fuel: not a result *)
 
 (* ---------------------------------------------------------------- CollectFields: flatten, then group *)
@@ -130,11 +130,11 @@ Definition rf_leaf_ok (s : schema) (n : str) (j : json) : bool :=
   | Some (EEnum _ _ _ vals _) =>
       match j with JStr x => existsb (fun v => streq (ev_value (c_val v)) x) vals | _ => false end
   | Some (EScalar _ _ _ _) =>
-      if streq n rn_Int then match j with JInt z => ((- two31 <=? z) && (z <? two31))%Z | _ => false end
+      if streq n rn_Int then match j with JInt z => ((- j_two31 <=? z) && (z <? j_two31))%Z | _ => false end
       else if streq n rn_Float then match j with JFloat _ => true | _ => false end
       else if streq n rn_String then match j with JStr _ => true | _ => false end
       else if streq n rn_Boolean then match j with JBool _ => true | _ => false end
-      else if streq n rn_ID then match j with JStr _ => true | JInt z => (z <? two63)%Z | _ => false end
+      else if streq n rn_ID then match j with JStr _ => true | JInt z => (z <? j_two63)%Z | _ => false end
       else true
   | _ => false
   end.
